@@ -27,10 +27,10 @@ macro_rules! newtype_sweep {
             let r = from::<$T>("Deserialize for <restricted integer>", &json!(n));
             rep.evaluations += 1;
             match r {
-                Err(m) => rep.violation(format!("C19:panic:{}", $name), format!("deserializing {} into {} panicked: {}", n, $name, m), json!({"kind":"serde","type":$name,"input":n})),
+                Err(m) => crate::viol!(rep, format!("C19:panic:{}", $name), format!("deserializing {} into {} panicked: {}", n, $name, m), json!({"kind":"serde","type":$name,"input":n})),
                 Ok(Some(x)) => {
                     if n > $max || x.get() as u32 != n {
-                        rep.violation(
+                        crate::viol!(rep, 
                             format!("C19:{}:out-of-range-accepted", $name),
                             format!("{} deserialized from {} as {:?} (max {})", $name, n, x, $max),
                             json!({"kind":"serde","type":$name,"input":n}),
@@ -40,7 +40,7 @@ macro_rules! newtype_sweep {
                 }
                 Ok(None) => {
                     if n <= $max {
-                        rep.violation(
+                        crate::viol!(rep, 
                             format!("C19:{}:valid-rejected", $name),
                             format!("{} could not be deserialized from its natural representation {}", $name, n),
                             json!({"kind":"serde","type":$name,"input":n}),
@@ -59,8 +59,8 @@ macro_rules! newtype_sweep {
             let r = from::<$T>("Deserialize for <restricted integer>", v);
             rep.evaluations += 1;
             match r {
-                Err(m) => rep.violation(format!("C19:panic:{}", $name), format!("deserializing {} into {} panicked: {}", v, $name, m), json!({"kind":"serde","type":$name,"input":v})),
-                Ok(Some(x)) if x.get() as u32 > $max => rep.violation(
+                Err(m) => crate::viol!(rep, format!("C19:panic:{}", $name), format!("deserializing {} into {} panicked: {}", v, $name, m), json!({"kind":"serde","type":$name,"input":v})),
+                Ok(Some(x)) if x.get() as u32 > $max => crate::viol!(rep, 
                     format!("C19:{}:out-of-range-accepted", $name),
                     format!("{} deserialized from {} as {:?}", $name, v, x),
                     json!({"kind":"serde","type":$name,"input":v}),
@@ -80,7 +80,7 @@ macro_rules! newtype_sweep {
             });
             rep.evaluations += 1;
             if r != Some(Some((x, x))) {
-                rep.violation(
+                crate::viol!(rep, 
                     format!("C19:{}:round-trip", $name),
                     format!("{:?} does not survive serialize -> deserialize: {:?}", x, r),
                     json!({"kind":"serde-roundtrip","type":$name,"input":n}),
@@ -165,6 +165,59 @@ fn mutations(v: &Value) -> Vec<Value> {
     out
 }
 
+/// Sequence-shaped (positional) form of a natural representation: every struct-like object
+/// becomes the array of its field values in serialization order (serde_json is built with
+/// `preserve_order`); single-key objects whose value is an object or array are kept as enum
+/// variant wrappers. This is what non-self-describing formats (bincode, postcard) transmit.
+fn positional(v: &Value, top: bool) -> Value {
+    match v {
+        Value::Object(m) => {
+            if m.len() == 1 && !top {
+                // cannot tell a one-field struct from a variant wrapper without type info: keep
+                return Value::Object(m.iter().map(|(k, x)| (k.clone(), positional(x, false))).collect());
+            }
+            if m.len() == 1 {
+                let (k, x) = m.iter().next().unwrap();
+                if x.is_object() || x.is_array() {
+                    let mut o = serde_json::Map::new();
+                    o.insert(k.clone(), positional_struct(x));
+                    return Value::Object(o);
+                }
+            }
+            positional_struct(v)
+        }
+        other => other.clone(),
+    }
+}
+
+fn positional_struct(v: &Value) -> Value {
+    match v {
+        Value::Object(m) => Value::Array(m.values().map(|x| positional(x, true)).collect()),
+        other => other.clone(),
+    }
+}
+
+fn seq_round_trip<T>(name: &'static str, v: &T, rep: &mut Report)
+where
+    T: serde::Serialize + serde::de::DeserializeOwned + PartialEq + std::fmt::Debug + Observe + Clone,
+{
+    let nat = serde_json::to_value(v).expect("serialize");
+    let pos = positional(&nat, true);
+    if pos == nat {
+        return;
+    }
+    rep.evaluations += 1;
+    rep.count("sequence_shaped_round_trips", 1);
+    match from::<T>("Deserialize from sequence-shaped input", &pos) {
+        Ok(Some(back)) if &back == v => {}
+        other => crate::viol!(rep, 
+            format!("C19:{}:sequence-shaped-round-trip", name),
+            format!("{:?} serializes (positionally) to {} which deserializes to {:?} ({:?})", v, pos, other.ok().flatten(), serde_json::from_value::<T>(pos.clone()).err().map(|e| e.to_string())),
+            json!({"kind":"serde-roundtrip-seq","type":name,"input":pos}),
+        ),
+    }
+}
+
 /// an accepted short message must be rebuildable via from_bytes and all accessors must work
 fn judge_short<M>(name: &'static str, input: &Value, m: M, rep: &mut Report)
 where
@@ -178,14 +231,14 @@ where
     });
     let rp = json!({"kind":"serde","type":name,"input":input});
     match r {
-        Err(msg) => rep.violation(
+        Err(msg) => crate::viol!(rep, 
             format!("C19:{}:accepted-value-panics", name),
             format!("{} deserialized from {} as {:?}; using it panics: {}", name, input, m, msg),
             rp,
         ),
         Ok((b, back, acc)) => {
             if b.0 < 0x80 || back != Some(m) || acc.is_none() {
-                rep.violation(
+                crate::viol!(rep, 
                     format!("C19:{}:invalid-accepted", name),
                     format!("{} deserialized from {} as {:?} (bytes {:?}), which from_bytes would not build", name, input, m, (b.0, b.1.get(), b.2.get())),
                     rp,
@@ -202,7 +255,7 @@ where
     rep.evaluations += 1;
     match from::<M>("Deserialize for <short message>", input) {
         Err(m) => {
-            rep.violation(format!("C19:panic:{}", name), format!("deserializing {} into {} panicked: {}", input, name, m), json!({"kind":"serde","type":name,"input":input}));
+            crate::viol!(rep, format!("C19:panic:{}", name), format!("deserializing {} into {} panicked: {}", input, name, m), json!({"kind":"serde","type":name,"input":input}));
             false
         }
         Ok(Some(m)) => {
@@ -223,7 +276,7 @@ fn judge_cc14(input: &Value, m: ControlChange14BitMessage, rep: &mut Report) {
     });
     let rp = json!({"kind":"serde","type":"ControlChange14BitMessage","input":input});
     match r {
-        Err(msg) => rep.violation(
+        Err(msg) => crate::viol!(rep, 
             if m.msb_controller_number().get() >= 32 {
                 "C19:ControlChange14BitMessage:msb_controller_number>=32-accepted".to_string()
             } else {
@@ -234,7 +287,7 @@ fn judge_cc14(input: &Value, m: ControlChange14BitMessage, rep: &mut Report) {
         ),
         Ok((rebuilt, _, _)) => {
             if rebuilt != m {
-                rep.violation(
+                crate::viol!(rep, 
                     "C19:ControlChange14BitMessage:not-rebuildable",
                     format!("{:?} differs from the value rebuilt by new(): {:?}", m, rebuilt),
                     rp,
@@ -248,7 +301,7 @@ fn judge_pn(input: &Value, m: ParameterNumberMessage, rep: &mut Report) {
     let p: PnM = pnm(&m);
     let rp = json!({"kind":"serde","type":"ParameterNumberMessage","input":input});
     if p.is14 && p.dt != 0 {
-        rep.violation(
+        crate::viol!(rep, 
             "C19:ParameterNumberMessage:is_14_bit&&data_type!=DataEntry-accepted",
             format!("deserialized {:?} from {}: 14-bit implies data entry", m, input),
             rp.clone(),
@@ -256,7 +309,7 @@ fn judge_pn(input: &Value, m: ParameterNumberMessage, rep: &mut Report) {
         return;
     }
     if !p.is14 && p.value > 127 {
-        rep.violation(
+        crate::viol!(rep, 
             "C19:ParameterNumberMessage:!is_14_bit&&value>127-accepted",
             format!("deserialized {:?} from {}: a 7-bit message cannot carry value {}", m, input, p.value),
             rp.clone(),
@@ -275,14 +328,14 @@ fn judge_pn(input: &Value, m: ParameterNumberMessage, rep: &mut Report) {
         (rebuilt, a, b)
     });
     match r {
-        Err(msg) => rep.violation(
+        Err(msg) => crate::viol!(rep, 
             "C19:ParameterNumberMessage:accepted-value-panics",
             format!("deserialized {:?} from {}; rebuilding/encoding panics: {}", m, input, msg),
             rp,
         ),
         Ok((rebuilt, _, _)) => {
             if rebuilt != m {
-                rep.violation(
+                crate::viol!(rep, 
                     "C19:ParameterNumberMessage:not-rebuildable",
                     format!("{:?} cannot be reproduced by the public constructors (closest: {:?})", m, rebuilt),
                     rp,
@@ -308,10 +361,10 @@ pub fn run(cfg: &Cfg, rep: &mut Report) {
         rep.evaluations += 1;
         let exp = if (0..256).contains(&n) { TYPES.iter().find(|t| t.0 as i64 == n).map(|t| t.1) } else { None };
         match r {
-            Err(m) => rep.violation("C19:panic:ShortMessageType", format!("{}: {}", n, m), json!({"kind":"serde","type":"ShortMessageType","input":n})),
+            Err(m) => crate::viol!(rep, "C19:panic:ShortMessageType", format!("{}: {}", n, m), json!({"kind":"serde","type":"ShortMessageType","input":n})),
             Ok(got) => {
                 if got != exp {
-                    rep.violation(
+                    crate::viol!(rep, 
                         "C19:ShortMessageType:wrong-acceptance",
                         format!("ShortMessageType deserialized from {} as {:?}, expected {:?}", n, got, exp),
                         json!({"kind":"serde","type":"ShortMessageType","input":n}),
@@ -326,7 +379,7 @@ pub fn run(cfg: &Cfg, rep: &mut Report) {
         });
         rep.evaluations += 1;
         if r != Some(Some(t.1)) {
-            rep.violation("C19:ShortMessageType:round-trip", format!("{} -> {:?}", t.2, r), json!({"kind":"serde-roundtrip","type":"ShortMessageType"}));
+            crate::viol!(rep, "C19:ShortMessageType:round-trip", format!("{} -> {:?}", t.2, r), json!({"kind":"serde-roundtrip","type":"ShortMessageType"}));
         }
     }
 
@@ -367,7 +420,7 @@ pub fn run(cfg: &Cfg, rep: &mut Report) {
         let r = api("Serialize+Deserialize round trip", || serde_json::from_value::<StructuredShortMessage>(nat.clone()).ok());
         rep.evaluations += 1;
         if r != Some(Some(*s)) {
-            rep.violation(
+            crate::viol!(rep, 
                 "C19:StructuredShortMessage:round-trip",
                 format!("{:?} -> {} -> {:?}", s, nat, r),
                 json!({"kind":"serde-roundtrip","type":"StructuredShortMessage","input":nat}),
@@ -400,7 +453,7 @@ pub fn run(cfg: &Cfg, rep: &mut Report) {
                 });
                 rt += 1;
                 if r != Some((Some(v), Some(raw))) {
-                    rep.violation(
+                    crate::viol!(rep, 
                         "C19:short-message:round-trip",
                         format!("({:#04x},{},{}) -> {:?}", s, d1, d2, r),
                         json!({"kind":"serde-roundtrip","type":"short message","input":[s,d1,d2]}),
@@ -417,14 +470,14 @@ pub fn run(cfg: &Cfg, rep: &mut Report) {
         let r = from::<TimeCodeType>("Deserialize for TimeCodeType", &v);
         rep.evaluations += 1;
         if r.is_err() {
-            rep.violation("C19:panic:TimeCodeType", format!("{}", v), json!({"kind":"serde","type":"TimeCodeType","input":v}));
+            crate::viol!(rep, "C19:panic:TimeCodeType", format!("{}", v), json!({"kind":"serde","type":"TimeCodeType","input":v}));
         }
     }
     for v in [json!("DataEntry"), json!("DataIncrement"), json!("DataDecrement"), json!("Data"), json!(1), json!(null)] {
         let r = from::<DataType>("Deserialize for DataType", &v);
         rep.evaluations += 1;
         if r.is_err() {
-            rep.violation("C19:panic:DataType", format!("{}", v), json!({"kind":"serde","type":"DataType","input":v}));
+            crate::viol!(rep, "C19:panic:DataType", format!("{}", v), json!({"kind":"serde","type":"DataType","input":v}));
         }
     }
     for (d1, f) in all_quarter_frames() {
@@ -432,17 +485,17 @@ pub fn run(cfg: &Cfg, rep: &mut Report) {
         let r = api("Serialize+Deserialize round trip", || serde_json::from_value::<TimeCodeQuarterFrame>(nat.clone()).ok());
         rep.evaluations += 1;
         if r != Some(Some(f)) {
-            rep.violation("C19:TimeCodeQuarterFrame:round-trip", format!("{:?} -> {} -> {:?}", f, nat, r), json!({"kind":"serde-roundtrip","type":"TimeCodeQuarterFrame","input":d1}));
+            crate::viol!(rep, "C19:TimeCodeQuarterFrame:round-trip", format!("{:?} -> {} -> {:?}", f, nat, r), json!({"kind":"serde-roundtrip","type":"TimeCodeQuarterFrame","input":d1}));
         }
         for m in mutations(&nat) {
             rep.evaluations += 1;
             match from::<TimeCodeQuarterFrame>("Deserialize for TimeCodeQuarterFrame", &m) {
-                Err(msg) => rep.violation("C19:panic:TimeCodeQuarterFrame", format!("{}: {}", m, msg), json!({"kind":"serde","type":"TimeCodeQuarterFrame","input":m})),
+                Err(msg) => crate::viol!(rep, "C19:panic:TimeCodeQuarterFrame", format!("{}: {}", m, msg), json!({"kind":"serde","type":"TimeCodeQuarterFrame","input":m})),
                 Ok(Some(q)) => {
                     // rebuildable: the byte codec must reproduce it
                     let r = api_probe("TimeCodeQuarterFrame<->U7", || TimeCodeQuarterFrame::from(U7::from(q)));
                     if r.as_ref().ok() != Some(&q) {
-                        rep.violation(
+                        crate::viol!(rep, 
                             "C19:TimeCodeQuarterFrame:invalid-accepted",
                             format!("deserialized {:?} from {}; byte codec gives {:?}", q, m, r),
                             json!({"kind":"serde","type":"TimeCodeQuarterFrame","input":m}),
@@ -463,14 +516,14 @@ pub fn run(cfg: &Cfg, rep: &mut Report) {
                 rep.evaluations += 1;
                 rep.distinct_nontrivial += 1;
                 match from::<ControlChange14BitMessage>("Deserialize for ControlChange14BitMessage", &input) {
-                    Err(m) => rep.violation("C19:panic:ControlChange14BitMessage", format!("{}: {}", input, m), json!({"kind":"serde","type":"ControlChange14BitMessage","input":input})),
+                    Err(m) => crate::viol!(rep, "C19:panic:ControlChange14BitMessage", format!("{}: {}", input, m), json!({"kind":"serde","type":"ControlChange14BitMessage","input":input})),
                     Ok(Some(m)) => {
                         cc14_accepted += 1;
                         judge_cc14(&input, m, rep);
                     }
                     Ok(None) => {
                         if (0..16).contains(&c) && (0..32).contains(&n) && (0..16384).contains(&v) {
-                            rep.violation(
+                            crate::viol!(rep, 
                                 "C19:ControlChange14BitMessage:valid-rejected",
                                 format!("natural representation {} was rejected", input),
                                 json!({"kind":"serde","type":"ControlChange14BitMessage","input":input}),
@@ -491,8 +544,9 @@ pub fn run(cfg: &Cfg, rep: &mut Report) {
                 });
                 rep.evaluations += 1;
                 if r != Some(Some(m)) {
-                    rep.violation("C19:ControlChange14BitMessage:round-trip", format!("{:?} -> {:?}", m, r), json!({"kind":"serde-roundtrip","type":"ControlChange14BitMessage"}));
+                    crate::viol!(rep, "C19:ControlChange14BitMessage:round-trip", format!("{:?} -> {:?}", m, r), json!({"kind":"serde-roundtrip","type":"ControlChange14BitMessage"}));
                 }
+                seq_round_trip("ControlChange14BitMessage", &m, rep);
             }
         }
     }
@@ -516,7 +570,7 @@ pub fn run(cfg: &Cfg, rep: &mut Report) {
                             rep.evaluations += 1;
                             rep.distinct_nontrivial += 1;
                             match from::<ParameterNumberMessage>("Deserialize for ParameterNumberMessage", &input) {
-                                Err(m) => rep.violation("C19:panic:ParameterNumberMessage", format!("{}: {}", input, m), json!({"kind":"serde","type":"ParameterNumberMessage","input":input})),
+                                Err(m) => crate::viol!(rep, "C19:panic:ParameterNumberMessage", format!("{}: {}", input, m), json!({"kind":"serde","type":"ParameterNumberMessage","input":input})),
                                 Ok(Some(m)) => {
                                     pn_accepted += 1;
                                     judge_pn(&input, m, rep);
@@ -524,7 +578,7 @@ pub fn run(cfg: &Cfg, rep: &mut Report) {
                                 Ok(None) => {
                                     let valid = c < 16 && n < 16384 && dt != "Bogus" && if b14 { dt == "DataEntry" && v < 16384 } else { v < 128 };
                                     if valid {
-                                        rep.violation(
+                                        crate::viol!(rep, 
                                             "C19:ParameterNumberMessage:valid-rejected",
                                             format!("natural representation {} was rejected", input),
                                             json!({"kind":"serde","type":"ParameterNumberMessage","input":input}),
@@ -551,8 +605,9 @@ pub fn run(cfg: &Cfg, rep: &mut Report) {
                     let r = api("Serialize+Deserialize round trip", || serde_json::from_value::<ParameterNumberMessage>(natv.clone()).ok());
                     rep.evaluations += 1;
                     if r != Some(Some(m)) {
-                        rep.violation("C19:ParameterNumberMessage:round-trip", format!("{:?} -> {} -> {:?}", m, natv, r), json!({"kind":"serde-roundtrip","type":"ParameterNumberMessage"}));
+                        crate::viol!(rep, "C19:ParameterNumberMessage:round-trip", format!("{:?} -> {} -> {:?}", m, natv, r), json!({"kind":"serde-roundtrip","type":"ParameterNumberMessage"}));
                     }
+                    seq_round_trip("ParameterNumberMessage", &m, rep);
                     for mu in mutations(&natv) {
                         rep.evaluations += 1;
                         if let Ok(Some(x)) = from::<ParameterNumberMessage>("Deserialize for ParameterNumberMessage", &mu) {
